@@ -50,7 +50,7 @@ def V(name, types, ncols, strcls, maxmut, maxlife, lifefrom, emit="mixed-upd", w
                 EmitSel=emit, MixedUpd=True)
 
 
-# gauged with EmitOn on 16 cores (scenarios printed / TLC seconds): see DESIGN 11 and the evidence file
+# gauged on 16 cores; scenarios printed and TLC seconds per configuration are in the evidence file (coverage.valuestore.configs)
 VS_CFGS = {
     "quick": [
         # two rows (short first, long first), one lifecycle step before or after the UPDATE; f400 / f401: off by one byte
@@ -63,11 +63,11 @@ VS_CFGS = {
         V("mix-iv-uniform", ["VARCHAR", "INT"], 2, ["l1", "l300", "f400"], 3, 1, 3, emit="refused-upd", wrong=True),
     ],
     "thorough": [
-        V("mix-vv", ["VARCHAR"], 2, ["l0", "l1", "l150", "l300", "f399", "f400", "f401"], 3, 2, 2, wrong=True, null=True),
+        V("mix-vv", ["VARCHAR"], 2, ["l1", "l150", "l300", "f399", "f400", "f401"], 3, 2, 2),
         V("mix-vv-life", ["VARCHAR"], 2, ["l1", "l150", "l300", "f400"], 3, 4, 3),
-        V("mix-viv", ["VARCHAR", "INT"], 3, ["l1", "l300", "f400", "f401"], 3, 2, 2),
+        V("mix-viv", ["VARCHAR", "INT"], 3, ["l1", "l300", "f400", "f401"], 3, 2, 3),
         # three rows, the refusing row second or third; statements after the refused UPDATE
-        V("mix-3rows", ["VARCHAR"], 2, ["l1", "l150", "l300", "f400"], 4, 2, 3, maxbad=0),
+        V("mix-3rows", ["VARCHAR"], 2, ["l1", "l300", "f400"], 4, 2, 3, maxbad=0),
         V("mix-all-uniform", ["INT", "BIGINT", "BOOLEAN", "VARCHAR"], 2, ["l1", "l300", "f400"], 3, 1, 3, emit="refused-upd", wrong=True),
     ],
 }
@@ -86,6 +86,8 @@ def stmt_name(schema, s):
 def c14_fid(scn, path, viol):
     """Signature: what was observed, after which statement (the last refused one before the step that went wrong, else
     the last statement), on which schema."""
+    if viol[0][0].startswith(("fatal-", "hang-")):
+        return "c14-vs-died-" + viol[0][0].split("-")[0]     # one signature: every repetition costs seconds
     m = re.match(r"step (\d+):", viol[0][1])
     at = int(m.group(1)) if m else len(scn["steps"]) - 1
     muts = [s for s in scn["steps"][:at + 1] if s["a"] in ("put", "upd")]
@@ -185,6 +187,11 @@ def run_valuestore(ctx, cov):
     cov["traces_validated_against_impl"] += vcov["evaluations"]
     cov["mixed_refused_updates_replayed"] = vcov["mixed_refused_updates_replayed"]["total"]
     cov["distinct_mixed_refused_updates"] = vcov["distinct_nontrivial"]
+
+    if vcov.get("stopped_early"):
+        cov["exhaustive"] = False
+        if not ctx.violations and not ctx.known:
+            raise vlib.Undecided(vcov["stopped_early"])
 
     # ---- vacuity (failing scenarios are not counted, so only meaningful when nothing failed)
     if not ctx.violations and not ctx.known:
